@@ -76,8 +76,9 @@ class _Line:
 
 
 class MemFile:
-    def __init__(self, vfs, selector, node, mode):
+    def __init__(self, vfs, selector, node, mode, errors=None):
         self.vfs, self.selector, self.node, self.mode = vfs, selector, node, mode
+        self.errors = errors or "strict"  # like open(): text mode decodes strictly unless told otherwise
         self.closed = False
         self.pos = 0
         self.text = "b" not in mode
@@ -113,7 +114,7 @@ class MemFile:
     def readline(self, *a):
         if self.kind == "bytes":
             r = self._bytes_readline()
-            return r.decode("utf-8", "surrogateescape") if self.text else r
+            return r.decode("utf-8", self.errors) if self.text else r
         if self.pos < len(self.node.data):
             s = self.node.data[self.pos]
             self.pos += 1
@@ -138,7 +139,7 @@ class MemFile:
                 n = len(d) - self.pos
             r = d[self.pos:self.pos + n]
             self.pos += len(r)
-            return r.decode("utf-8", "surrogateescape") if self.text else r
+            return r.decode("utf-8", self.errors) if self.text else r
         # lines: hand out one line per read call (a legal short read)
         if self.pos < len(self.node.data):
             s = self.node.data[self.pos]
@@ -259,7 +260,7 @@ class MemVFS(_base.VFS_Real):
             raise IsADirectoryError(errno.EISDIR, "Is a directory", selector)
         if isinstance(n, Special):
             raise OSError(errno.ENXIO, "No such device or address", selector)
-        return MemFile(self, selector, n, mode)
+        return MemFile(self, selector, n, mode, errors)
 
 
 def install(vfs):
